@@ -309,6 +309,24 @@ def r6(ctx):
       okd = bool(c.args) and U(c.args[0]) == dl
       ctx.ob('C01.R6', f, 'timer scheduled on the timer queue at the stored deadline', okq and okd,
              'Schedule call is %s (resolves to %s)' % (U(c)[:80], [t.qualname for t in targets]), why + '; a later time completes late, an earlier one raises TimeoutError early')
+      # which queue: the call timer must tick on the wall clock with a fine resolution -- a queue built with a coarse resolution or a
+      # lagging time source (LOW_RESOLUTION_TIMER_QUEUE: whole seconds, clock refreshed once a second) posts TimeoutError 1-2 s after t+T
+      qn = U(c.func.value) if isinstance(c.func, ast.Attribute) else None
+      r_ = prog.resolve_name(f.module, qn, f.cls) if qn else None
+      fine = False
+      qdesc = 'unresolved'
+      if isinstance(r_, tuple) and r_[0] == 'const' and isinstance(r_[2], ast.Call) and (dotted(r_[2].func) or '').split('.')[-1] == 'TimerQueue':
+        kw = dict((k.arg, k.value) for k in r_[2].keywords)
+        qdesc = U(r_[2])
+        res_ok = True
+        if 'resolution' in kw:
+          try:
+            res_ok = float(prog.const_eval(kw['resolution'], r_[1])) <= 0.01
+          except Exception:
+            res_ok = False
+        fine = res_ok and 'time_source' not in kw and not r_[2].args
+      ctx.ob('C01.R6', f, 'the call timer runs on a fine-grained wall-clock timer queue', fine, 'the timeout is scheduled on %s = %s' % (qn, qdesc),
+             'the call must complete no later than t+T (plus the 10 ms quantum): a queue that rounds to whole seconds on a once-a-second clock delivers TimeoutError 1-2 s late')
       # pushed context is the cancel closure returned by Schedule
       push = [i.node for i in items if i.kind == 'PUSH']
       cancel = [U(s.targets[0]) for s in walk_no_nested(f.node) if isinstance(s, ast.Assign) and s.value is c]
